@@ -11,7 +11,7 @@ from ..core import (AnalysisError, FuncInfo, Report, call_name, const_value,
 from ..ctx import Ctx
 from ..dataflow import default_of
 from ..tables import check_brackets, load_corpus, shape
-from .util import actual, calls_in, enclosing, kw
+from .util import actual, calls_in, ctor_arg, enclosing, kw
 
 EXPLANATION = (
     "Whether the DFS linearisation closes blocks correctly depends on the "
@@ -505,7 +505,7 @@ def r55(rep: Report, ctx: Ctx) -> None:
     mk = ctx.func("create_node_from_event")
     for c in [c for c in ast.walk(mk.node) if isinstance(c, ast.Call)
               and call_name(c) in ("Node", "SubGraphNode")]:
-        v = kw(c, "event_type")
+        v = ctor_arg(ctx, c, call_name(c) or "Node", "event_type")
         rep.ob("R5.5", f"{call_name(c)}(event_type=event.event_type)",
                plain(v, "event_type"), fi=mk, node=c,
                detail=f"event_type={unparse(v)}")
@@ -524,7 +524,7 @@ def r55(rep: Report, ctx: Ctx) -> None:
     cen = ctx.func("PUMLGraph.create_event_node")
     c = [c for c in ast.walk(cen.node) if isinstance(c, ast.Call)
          and call_name(c) == "PUMLEventNode"]
-    v = kw(c[0], "event_name") if c else None
+    v = ctor_arg(ctx, c[0], "PUMLEventNode", "event_name") if c else None
     rep.ob("R5.5", "PUMLEventNode(event_name=event_name)",
            isinstance(v, ast.Name) and v.id == "event_name"
            and ctx.defs(cen).only_param("event_name"), fi=cen,
